@@ -151,7 +151,8 @@ class C16(Prop):
             "fmt": st.just("eblif"), "source": st.just("verilog"), "design": gen_verilog.designs(),
             "write_blackbox": st.booleans(), "cname": st.booleans(), "drop_type": st.none(),
             "drop_name": st.booleans()})
-        return st.one_of(edif, edif, ver, ebl, cross)
+        pre = st.sampled_from(["none", "none", "none", "clone", "uniquify"])
+        return st.tuples(st.one_of(edif, edif, ver, ebl, cross), pre).map(lambda t: dict(t[0], pre=t[1]))
 
     def run(self, case):
         import spydrnet as sdn
@@ -229,6 +230,19 @@ class C16(Prop):
             sdn.namespace_manager.default = "DEFAULT"
             res.label("input-rejected-by-reader")
             return res
+        if case.get("pre") in ("clone", "uniquify") and nl.top_instance is not None:
+            # the netlist that is written may be the product of another feature
+            try:
+                if case["pre"] == "clone":
+                    nl = nl.clone()
+                else:
+                    import spydrnet.uniquify as U
+                    U.MOD_NAME_UID = 0
+                    U.uniquify(nl)
+                res.label("netlist-is-product-of-" + case["pre"])
+            except Exception:  # noqa (C07/C08's business)
+                res.label("pre-transform-raised")
+                return res
         if fmt != "edif" and case.get("drop_name") and nl.name is not None:
             # only the EDIF writer is documented to default an absent netlist name
             del nl.name
